@@ -433,6 +433,9 @@ func modeC02() {
 		{Tree: []Entry{{Path: "a", Size: 4}, {Path: "b", Size: 6}}, Chunk: 4, Streams: 2, Conns: 2, Resume: false, NoRootDir: true},
 		{Tree: []Entry{{Path: "a", Size: 4}}, Chunk: 4, Streams: 3, Conns: 3, Resume: false, NoRootDir: true},
 	} {
+		if wi == 2 && !thorough {
+			continue // three connections: thorough tier
+		}
 		p, err := prepare(c)
 		if err != nil {
 			res.InfraError("prepare: %v", err)
@@ -447,7 +450,11 @@ func modeC02() {
 		st.cases++
 		for _, k := range []string{"conn0/c:0", "conn0/s:0"} {
 			n := obs0.counts[k]
-			for pos := int64(0); pos < n; pos += 3 {
+			mcStride := int64(8)
+			if thorough {
+				mcStride = 2
+			}
+			for pos := int64(0); pos < n; pos += mcStride {
 				for _, kind := range []string{"loss-other", "close-other"} {
 					f := FaultSpec{k, pos, kind, 0}
 					job++
